@@ -95,6 +95,11 @@ def gen_descs(g, tier):
         for _ in range(reps):
             R = g.randint(2, 4 if q else 6)
             out.append(C.J(gen_case(g, op, R, g.randint(1, 3))))
+    # update(idx, d): systematic address patterns -- gaps, descending, mixed negative, a full permutation, one component
+    for (R, pos) in [(3, [0, 2]), (4, [3, 1]), (4, [-1, 0]), (3, [2, 0, 1]), (5, [4, 0, 2]), (3, [1]), (4, [1, 2]), (4, [-2, -4])]:
+        d = gen_case(g, "update", R, g.randint(1, 2))
+        d.update(q=lin.gen_pdfv(g, len(pos), d["p"]["D"], ctor="Sigma"), idx=pos)
+        out.append(C.J(d))
     return out
 
 
